@@ -103,6 +103,11 @@ def run_task(task):
     base, tname, depth = task[:3]
     family = task[3] if len(task) > 3 else 'abc'
     conv = TYPES[tname]
+    if len(task) > 4 and task[4] == 'tiny':
+        # all values scaled by 1e-10: sums far below any absolute tolerance are still not zero
+        conv = (lambda v, c=TYPES[tname]: c(v) * (F(1, 10 ** 10) if tname == 'Fraction' else c(1e-10)))
+    rscale = F(1, 10 ** 10) if (len(task) > 4 and task[4] == 'tiny' and tname == 'Fraction') else \
+        (F(float(TYPES[tname](1e-10))) if len(task) > 4 and task[4] == 'tiny' else 1)
     dyn = base != 'welford'
     alpha = None if not dyn else F(base)
     if tname in ('int', 'np.int64') and dyn and alpha not in (1,):
@@ -132,7 +137,7 @@ def run_task(task):
             upd = {k: conv(v) for k, v in d.items()}
             with np.errstate(all='ignore'):
                 t2.update(dict(upd))
-                r2.update({k: F(v) for k, v in d.items()})
+                r2.update({k: F(v) * rscale for k, v in d.items()})
                 n[0] += 1
                 h2 = hist + [d]
                 check(t2, r2, tname, len(h2), f"MultiValueTracker({'WelfordTracker' if not dyn else f'ES(alpha={alpha})'}) "
@@ -155,6 +160,8 @@ def plan(tier):
             tasks.append((base, tname, depth if (tname in ('Fraction', 'np.float64') or tier != 'thorough') else 3))
         tasks.append((base, 'Fraction', 3, 'mixed'))
         tasks.append((base, 'float', 2, 'mixed'))
+        for tname in ('float', 'Fraction', 'np.float64', 'np.float32'):
+            tasks.append((base, tname, 2, 'abc', 'tiny'))
     return tasks
 
 
